@@ -892,4 +892,29 @@ theorem isIn_iff (l r : Str) : isIn l r = true ↔ ∃ i, i ≤ r.length ∧ Occ
       rw [occursAt_false_iff] at this
       exact absurd hocc this
 
+/-! ### the hypotheses are satisfiable, the functions compute: concrete instances -/
+
+section examples
+def S (s : String) : Str := s.toList
+
+example : splitSep (S "a,b,,c") (S ",") none = [S "a", S "b", S "", S "c"] := by decide
+example : splitSep (S "aaa") (S "aa") none = [S "", S "a"] ∧ rsplitSep (S "aaa") (S "aa") none = [S "a", S ""] := by decide
+example : splitSep (S "a,b,,c") (S ",") (some 2) = [S "a", S "b", S ",c"] := by decide
+/-- `join_split` needs more than "no piece contains the separator": with separator `aa` the pieces
+    `a`, `` are separator-free, yet splitting their join gives other pieces -/
+example : splitSep (join (S "aa") [S "a", S ""]) (S "aa") none = [S "", S "a"] := by decide
+example : NoEarly (S ", ") (S "ab") := by
+  intro j hj; have : j = 0 ∨ j = 1 := by simp [S] at hj; omega
+  rcases this with rfl | rfl <;> simp [Occurs, S]
+example : substring (S "abcd") (-3) 2 = S "bc" ∧ substring (S "abcd") 1 (-1) = S "bcd" ∧
+    substring (S "abcd") 6 1 = S "" := by decide
+example : indexOf4 (S "cabcdab") (S "ab") (-6) 2 = 1 ∧ indexOf4 (S "cabcdab") (S "ab") 2 (-1) = 5 ∧
+    indexOf4 (S "cabcdab") (S "ab") 2 3 = -1 ∧ lastIndexOf4 (S "cabcdbc") (S "bc") 2 5 = 5 := by decide
+example : FirstIn (S "cabcdab") (S "ab") 1 3 1 := by
+  refine ⟨by omega, by simp [S], by simp [Occurs, S], fun j h1 h2 => by omega⟩
+example : replace (S "aaaa") (S "aa") (S "b") 1 = S "baa" ∧ replace (S "aaaa") (S "aa") (S "b") (-1) = S "bb" ∧
+    replace (S "abc") [] (S "-") 2 = S "-a-bc" := by decide
+example : startsWith (S "abcd") [S "xx", S "ab"] = true ∧ endsWith (S "abcd") [] = false := by decide
+end examples
+
 end Yaql.Props.C19
